@@ -404,21 +404,33 @@ def _optical_rows(ctx, R0, cfg, col):
         ctx.probes["optical_row_recomputation_unavailable"] += 1
         return
     cloud = CloudTopHeight(cfg)
-    o = cfg.detector.optical
+    # numPEs is the photon density of the row's shower times a detector constant; the constant
+    # is not asserted (it is the optical stage's business), only that it is the SAME for every
+    # sampled row and that a shower without light has no photo-electrons
+    ratios = []
     for r in pick:
         try:
             d, _ = ck.run(col("beta_rad")[r], col("altDec")[r], col("showerEnergy")[r], col("init_lat")[r], col("init_lon")[r], cloud)
         except Exception:  # noqa: BLE001
             ctx.probes["optical_row_recomputation_raised"] += 1
             return
-        want = np.float64(d) * o.telescope_effective_area * o.quantum_efficiency
-        got = col("numPEs")[r]
-        if not (got == want or abs(got - want) <= 1e-9 * max(abs(got), abs(want))):
-            raise Violation(
-                "c14.cross_stage_alignment",
-                f"numPEs in row {r} is {got!r}; evaluating the shower of that row (beta_rad, altDec, showerEnergy, init_lat, init_lon of the same row) gives {want!r}",
-                sig="align:numPEs-row",
-            )
+        d = float(np.float64(d))
+        got = float(col("numPEs")[r])
+        if d == 0.0:
+            if got != 0.0:
+                raise Violation("c14.cross_stage_alignment", f"numPEs in row {r} is {got!r} but the shower of that row (its beta_rad, altDec, showerEnergy, init_lat, init_lon) gives no light", sig="align:numPEs-row")
+            continue
+        ratios.append((r, got / d, got, d))
+    if len(ratios) >= 2:
+        ref_r = ratios[0]
+        for r, q, got, d in ratios[1:]:
+            if not (q == ref_r[1] or abs(q - ref_r[1]) <= 1e-9 * max(abs(q), abs(ref_r[1]))):
+                raise Violation(
+                    "c14.cross_stage_alignment",
+                    f"numPEs is not aligned with the rows' showers: row {ref_r[0]} has numPEs/photon-density = {ref_r[1]!r}, row {r} has {q!r} "
+                    f"(numPEs {got!r}, photon density of the shower built from the same row's beta_rad, altDec, showerEnergy, init_lat, init_lon {d!r})",
+                    sig="align:numPEs-row",
+                )
     ctx.probes["optical_rows_recomputed"] += len(pick)
 
 
